@@ -21,7 +21,8 @@ Every `expect` / `unwrap` / slice / unsigned subtraction / `try_push` / `panic!`
 `Site` and is reported as `.error site`, so that "never panics" is a theorem about this model
 (`Theorems/C19.lean`).  The model is of the code *after* the commit `fix: combinator must not panic
 on solutions without any interface` (the `interfaces.first().expect(..)` of the original code is gone:
-such a solution yields no path).
+such a solution yields no path) and after `fix: combinator must de-duplicate paths by their
+interface sequence`.
 
 Idealisations (stated in checks/C19.json, checks/C04.json):
 * hash-map iteration order is not modelled: the BFS output is sorted afterwards, so it only matters
@@ -195,28 +196,6 @@ def sortSols (l : List Sol) : List Sol := l.mergeSort solLe
 
 /-! ### `PathSolution::path` -/
 
-/-- data-plane segment: info field + hop fields -/
-structure PSeg where
-  consDir : Bool
-  peering : Bool
-  segid : Nat
-  ts : Nat
-  hops : List HopF
-deriving DecidableEq, Repr, Inhabited
-
-/-- the observable part of a `ScionPath` returned by `combine` -/
-structure Path where
-  src : Nat
-  dst : Nat
-  segs : List PSeg
-  /-- `metadata.mtu` -/
-  mtu : Nat
-  /-- `metadata.expiration` = `ScionPath::expiration()` -/
-  expiry : Nat
-  /-- `metadata.interfaces` -/
-  ifs : List (Nat × Nat)
-deriving DecidableEq, Repr, Inhabited
-
 def u16Max : Nat := 65535
 def u32Max : Nat := 4294967295
 
@@ -372,11 +351,16 @@ def hasLoops (p : Path) : Bool :=
 def Path.fpr (p : Path) : Nat × Nat × List (Nat × Nat) :=
   (p.src, p.dst, p.segs.flatMap fun s => s.hops.map fun h => (h.ingress, h.egress))
 
+/-- key of `filter_duplicates`: the interface sequence of the path metadata (since the commit
+`fix: combinator must de-duplicate paths by their interface sequence`; before, the data-plane
+fingerprint `Path.fpr`) -/
+def Path.dedupKey (p : Path) : List (Nat × Nat) := p.ifs
+
 /-- one iteration of `filter_duplicates` -/
 def insertDedup : List Path → Path → List Path
   | [], p => [p]
   | q :: qs, p =>
-    if q.fpr = p.fpr then (if p.expiry > q.expiry then p :: qs else q :: qs)
+    if q.dedupKey = p.dedupKey then (if p.expiry > q.expiry then p :: qs else q :: qs)
     else q :: insertDedup qs p
 
 /-- `filter_duplicates` -/
